@@ -82,6 +82,19 @@ impl<const N: usize> Ex<N> {
         }
         let failed_in_op = self.fail.is_some();
         self.check_hook_violations(out.own);
+        if self.fail.is_none() {
+            // representation sanity (the crate's own debug assertions): every accessor relies on it
+            for b in 0..2 {
+                if let Some(buf) = self.bufs[b].as_ref() {
+                    let (start, size) = buf.verif_layout();
+                    if size > N || (N > 0 && start >= N) {
+                        let fam = self.family_class();
+                        self.fail(cls::CONTENTS | out.own | fam, format!("buffer {b} is corrupt: front position {start}, length {size}, capacity {N}"));
+                        break;
+                    }
+                }
+            }
+        }
         let mut all_items: [Vec<Item>; 2] = [Vec::new(), Vec::new()];
         let mut observed = [false; 2];
         for b in 0..2 {
